@@ -277,7 +277,22 @@ class Gen:
         wrap_try = lambda body, exc=b'': op('TRY_EXCEPT') + u16(len(body)) + body + u16(len(exc)) + exc
         defn = lambda hh, body: op('DEF') + hh + u16(len(body)) + body
         call = lambda hh: op('CALL') + hh
-        k = r.randrange(9)
+        k = r.randrange(10)
+        if k == 9:
+            # a definition repeated WORD FOR WORD in a nested scope (IF / TRY / EXCEPT / EVAL body), next to a local (re)definition of
+            # the function it calls: the repeated definition belongs to the nested scope and sees the local one
+            f_body = call(H2) + r.choice([b'', push(b'f')])
+            outer = r.choice([b'', defn(H2, push(b'global'))]) + defn(H, f_body)
+            inner = defn(H2, push(b'local')) + r.choice([defn(H, f_body), defn(H, f_body), defn(H, f_body + b''), b'']) + call(H)
+            where = r.choice(['if', 'try', 'except', 'eval', 'if/try'])
+            if where == 'if': mid = op('TRUE') + op('IF') + u16(len(inner)) + inner
+            elif where == 'try': mid = wrap_try(inner, push(b'except ran'))
+            elif where == 'except': mid = wrap_try(op('FALSE') + op('VERIFY'), inner)
+            elif where == 'eval': mid = push(inner) + op('EVAL')
+            else:
+                t_ = wrap_try(inner, push(b'except ran'))
+                mid = op('TRUE') + op('IF') + u16(len(t_)) + t_
+            return outer + mid + r.choice([b'', wrap_try(call(H), push(b'E')), call(H2) if outer[:1] == op('DEF') and len(outer) > len(defn(H, f_body)) else b''])
         if k == 0:
             # outer activation catches the raise of the inner one, then continues
             guard = r.choice([op('VERIFY'), op('POP0'), pushi(1) + op('ADD_INTS') + u8(2) + op('VERIFY')])
